@@ -54,11 +54,12 @@ func init() {
 			world           string
 			quick, thorough explore.Bounds
 		}
-		runs := []run{{"pay", b(2, 1, 2), b(3, 2, 3)}}
+		runs := []run{{"book", b(2, 2, 2), b(3, 2, 3)}, {"pay", b(1, 1, 2), b(3, 2, 3)}, {"pool", b(1, 1, 2), b(2, 2, 2)}, {"stake", b(1, 1, 2), b(2, 2, 2)}, {"coin", b(1, 1, 2), b(2, 2, 2)},
+			{"stakepending", b(0, 0, 3), b(1, 1, 3)}, {"valbyz", b(0, 0, 2), b(0, 0, 3)}}
 		var twinRuns, twinHist int64
 		var wr []WorldRun
 		for _, r := range runs {
-			wr = append(wr, WorldRun{World: r.world, Quick: r.quick, Thorough: r.thorough, OneEnv: false, MenuFilter: noReplay,
+			wr = append(wr, WorldRun{World: r.world, Quick: r.quick, Thorough: r.thorough, OneEnv: r.world != "valbyz" && (c.Quick() || r.world != "pay"), MenuFilter: noReplay,
 				NoDedupe: !c.Quick(),
 				OnTransition: func(t *explore.Transition, newState bool) []explore.Violation {
 					if t.Cur.Fault != nil || (c.Quick() && !newState) {
